@@ -93,11 +93,16 @@ func checkC10Sched(c *c10SchedCase, o *core.Obs) error {
 		}
 		return n
 	}
-	flushPools()
-	base, err := encodeImg(img, c.Opts)
+	var base []byte
+	err := withWatchdog(90*time.Second, func() error {
+		flushPools()
+		var e error
+		base, e = encodeImg(img, c.Opts)
+		return e
+	})
 	verifhook.OnWorkers = nil
 	if err != nil {
-		return fmt.Errorf("Encode: %v", err)
+		return fmt.Errorf("single-worker Encode: %v", err)
 	}
 	// perturbed run
 	var inFlight, maxInFlight int32
@@ -187,11 +192,16 @@ func checkC10Conc(c *c10ConcCase, o *core.Obs) error {
 	defer runtime.GOMAXPROCS(old)
 	// expectations: every call alone, from a fresh state
 	exp := make([][]string, len(c.Lists))
-	for i, l := range c.Lists {
-		for k := range l {
-			flushPools()
-			exp[i] = append(exp[i], runC11Op(&l[k]).Digest)
+	if err := withWatchdog(180*time.Second, func() error {
+		for i, l := range c.Lists {
+			for k := range l {
+				flushPools()
+				exp[i] = append(exp[i], runC11Op(&l[k]).Digest)
+			}
 		}
+		return nil
+	}); err != nil {
+		return fmt.Errorf("sequential expectations: %v", err)
 	}
 	var hits int64
 	var hmu sync.Mutex
